@@ -7,7 +7,7 @@
     calls that returned an error. *)
 From Coq Require Import Lia ZArith.
 From Hoot Require Import Base Chunk Body Httparse Parser Url Request Call Flow.
-From Hoot.proofs Require Import BytesLemmas Reasons C12_chunk C12_parsers C12_flow.
+From Hoot.proofs Require Import BytesLemmas Reasons C12_chunk C12_parsers C12_flow C12_after_err.
 Open Scope N_scope.
 
 Inductive srv_op :=
@@ -19,7 +19,9 @@ Inductive srv_op :=
 
 (** Safety of a session.  An operation the typestate does not offer in the current state is not a
     call at all (the Rust program would not compile): it is skipped.  After an [Err] the caller still
-    holds a flow ([try_read_100] hands it back; the other calls borrow it) and the session goes on.
+    holds a flow ([try_read_100] hands it back; the other calls borrow it) and the session goes on;
+    after a failed body read that flow is [recv_body_after_err f w cap] (the chunked decoder was
+    mutated in place and keeps the state it had reached, see proofs/C12_after_err.v).
     The one excluded situation is the documented misuse of [try_read_100] (a window that parses as
     a complete 100 offered after a refusal, impossible when unconsumed bytes are re-presented:
     [run100_discipline]); nothing is claimed from there on.  The session is over, as far as the server
@@ -57,7 +59,7 @@ Fixpoint session_safe (t : tag) (f : inner) (ops : list srv_op) : Prop :=
       | TRecvBody, ORead w cap =>
           match recv_body_read f w cap with
           | Panic _ => False
-          | Err _ => session_safe TRecvBody f rest
+          | Err _ => session_safe TRecvBody (recv_body_after_err f w cap) rest
           | Ok (f', i, out) =>
               i <= len w /\ len out <= cap /\ subseq out (take i w) /\ session_safe TRecvBody f' rest
           end
@@ -147,7 +149,8 @@ Proof.
       destruct (recv_body_read f w cap) as [[[f' i] out]|e|s].
       * destruct H as (H1 & H2 & H3 & r' & -> & H4). repeat split; try assumption.
         apply IH. cbn. repeat split; try assumption. exists r'. split; [reflexivity|exact H4].
-      * apply IH. exact HS.
+      * destruct (recv_body_after_err_pre f r w cap Hh Hr Hok) as (r' & -> & Hok' & _).
+        apply IH. cbn. repeat split; try assumption. exists r'. split; [reflexivity|exact Hok'].
       * exact H.
     + destruct (recv_body_stop_safe f r b Hh Hr) as (f' & E & Hh' & Hr' & Hrs). rewrite E.
       apply IH. cbn. rewrite Hrs. repeat split; try assumption. exists r. auto.
